@@ -623,7 +623,7 @@ let archtab_of = function
 let c02_clause_name (cl : c02_clause) = implode (c02_clause_text cl)
 
 let run_c02 ic =
-  let n = ref 0 and n_dis = ref 0 and n_fail = ref 0 and n_err = ref 0 in
+  let n = ref 0 and n_dis = ref 0 and n_fail = ref 0 and n_err = ref 0 and n_read = ref 0 and n_premise = ref 0 in
   iter_cases ic (fun _ -> ()) (fun c ->
       incr n;
       let f = fmt_of_string c.format in
@@ -673,6 +673,24 @@ let run_c02 ic =
                  ignore canon;
                  Some (List.concat_map (fun (k, v) -> k @ explode ": " @ v @ ['\n']) m), (per_tag m = per_tag obs_meta))) in
         let clauses = check_C02 f (archtab_of f) arch_doc mi obs_meta in
+        (* deb / ipk: the control text through the deb822 model's reader - it must find the fields the harness's own
+           reader finds; for a deb whose single-line values hold no newline (the premise of C02_deb_control_reads_back)
+           it must find exactly the field list of the metadata model *)
+        let reader_notes = (match f, c.rawmeta with
+            | (FDeb | FIpk), Some raw ->
+              incr n_read;
+              (match d_read (explode raw) with
+               | None -> ["the deb822 model's reader cannot read the control member"]
+               | Some fs ->
+                 let got = List.map (fun (k, v) -> (implode k, implode v)) fs in
+                 (if got = c.meta then [] else ["the deb822 model's reader and the harness's reader find different fields in the control member"])
+                 @ (if f = FDeb && control_single_lines arch_deb mi (z_of_int (file_sum / 1024)) then begin
+                     incr n_premise;
+                     if agree && fs <> List.map kv_of (deb_fields arch_deb mi (z_of_int (file_sum / 1024)))
+                     then ["the fields read back are not the metadata model's field list although the premise of C02_deb_control_reads_back holds"] else [] end
+                   else []))
+            | _ -> []) in
+        let agree = agree && reader_notes = [] in
         if not agree then incr n_dis;
         if clauses <> [] then incr n_fail;
         let kf = List.sort_uniq compare (List.filter_map (fun cl -> let nm = c02_clause_name cl in
@@ -687,11 +705,11 @@ let run_c02 ic =
           end else kf in
         if (not agree) || clauses <> [] then
           report ~kf c.id agree (List.sort_uniq compare (List.map c02_clause_name clauses)) []
-            (if agree then [] else
+            (reader_notes @ if agree then [] else
                ["model: " ^ (match model_text with Some t -> String.escaped (implode t) | None -> "(error)");
                 "impl:  " ^ (match c.rawmeta with Some t -> String.escaped t | None ->
                     String.escaped (String.concat "" (List.map (fun (k, v) -> k ^ ": " ^ v ^ "\n") c.meta)))]));
-  Printf.printf "SUMMARY cases=%d disagreements=%d impl_failures=%d impl_errors=%d\n" !n !n_dis !n_fail !n_err
+  Printf.printf "SUMMARY cases=%d disagreements=%d impl_failures=%d impl_errors=%d control_texts_read_by_the_model=%d of_which_within_the_read_back_premise=%d\n" !n !n_dis !n_fail !n_err !n_read !n_premise
 
 (* ---------- C14 ---------- *)
 let c14_clause_name = function
